@@ -31,7 +31,9 @@ def cfg(tier):
 
 def params(tier):
     D, L = cfg(tier)
-    ps = [P("n", 0, 2), P("nested", 0, 1), P("act", 0, 8), P("selfend", 0, 1), P("via", 0, 2), P("cleanup", 0, 1), P("k0", 0, 2), P("k1", 0, 2), P("k2", 0, 2), P("act2", 0, 1)]
+    ps = [P("n", 0, 2), P("nested", 0, 1), P("act", 0, 8), P("via", 0, 2), P("k0", 0, 2), P("k1", 0, 2), P("k2", 0, 2), P("act2", 0, 1)]
+    # quick: ONE of {plain, first task ended by itself, block ends with an exception, task needs shielded clean-up}; thorough: the full product
+    ps += [P("mode", 0, 3)] if tier == "quick" else [P("selfend", 0, 1), P("cleanup", 0, 1), P("blockerr", 0, 1)]
     for j in range(D):
         ps += [P(f"gap{j}", 0, L), P(f"arm{j}", 0, 3)]
     return ps
@@ -49,11 +51,18 @@ def fn(a, tier):
     kinds = [pick(a[f"k{i}"], 3) for i in range(n)]
     first_task = next((i for i, k in enumerate(kinds) if k == 1), None)
     act = pick(a["act"], 9) if first_task is not None else 0
+    if tier == "quick":
+        mode = pick(a["mode"], 4)
+        m_selfend, m_blockerr, m_cleanup = int(mode == 1), int(mode == 2), int(mode == 3)
+    else:
+        m_selfend, m_cleanup, m_blockerr = pick(a["selfend"], 2), pick(a["cleanup"], 2), pick(a["blockerr"], 2)
     # the first task has already ended by itself (with its context) when the owner is torn down: its teardown action is still due exactly once
-    selfend = pick(a["selfend"], 2) if first_task is not None else 0
-    cleanup = 2 * pick(a["cleanup"], 2) if first_task is not None else 0
+    selfend = m_selfend if first_task is not None else 0
+    cleanup = 2 * m_cleanup if first_task is not None else 0
     act2 = pick(a["act2"], 2) if kinds.count(1) > 1 else 0
     tape = DeviationTape([(a[f"gap{j}"], a[f"arm{j}"]) for j in range(D)], L)
+    blockerr = m_blockerr  # the owner's block ends with an ordinary exception: the tasks are still stopped as their teardown_action dictates
+    body_exc = BodyErr("the block failed")
     log = []
     calls = {}
     info = {}
@@ -202,19 +211,32 @@ def fn(a, tier):
                 for _ in range(4):
                     await anyio.sleep(0)
             log.append(("leaving",))
+            if blockerr:
+                raise body_exc
         log.append(("left",))
         k = symsched.kernel()
         info["alive_after"] = [t.name for t in k.live_tasks() if "Service task" in t.name]
 
+    async def guarded_block():
+        try:
+            await block()
+        except BodyErr as e:
+            info["block_raised"] = e
+            log.append(("left",))
+            k = symsched.kernel()
+            info["alive_after"] = [t.name for t in k.live_tasks() if "Service task" in t.name]
+
     async def main():
         if nested:
             async with Context():
-                await block()
+                await guarded_block()
         else:
-            await block()
+            await guarded_block()
 
     _, exc, k = run(main, chooser=tape)
-    summary = {"items": ["resource+teardown cb" if kd == 0 else "resource whose teardown cb starts a service task" if kd == 2
+    if exc is None and blockerr and info.get("block_raised") is not body_exc:
+        exc = RuntimeError(f"the block's exception did not come out as itself: {info.get('block_raised')!r}")
+    summary = {"owner_block_ends_with": "an Exception" if blockerr else "return", "items": ["resource+teardown cb" if kd == 0 else "resource whose teardown cb starts a service task" if kd == 2
                          else f"service task, teardown_action={ACTIONS[action_for(i)]}" for i, kd in enumerate(kinds)],
                "first_task_ends_by_itself_before_the_teardown": bool(selfend), "cleanup_checkpoints_after_stop": cleanup, "context": "nested" if nested else "root",
                "registered": ["directly in the owning context (shortcuts)", "inside a component's start()", "through the owner's methods while a nested context is current"][via], "schedule": tape.taken}
